@@ -4,6 +4,6 @@ From Coq Require Import ZArith NArith.
 From VB Require Import Arith.CompactDefs Arith.U256Defs.
 From VB Require Import Text.TextCommon Text.HexDefs Text.Base58Defs Text.Base59Defs Text.AddressDefs.
 Extraction "C18_model.ml" Nat.pred N.succ Z.succ fromBits toBits
-  of_u64 getLow64 bnot inc dec neg uadd usub mul32 umul cmp ubits shl shr udiv fromBits_b toBits_b uval
+  of_u64 getLow64 bnot inc dec neg uadd usub mul32 umul cmp ubits shl shr shl_g shr_g ubits_g udiv fromBits_b toBits_b uval
   hex_str parse_hex is_hex b58_encode b58_decode b59_encode b59_decode
   addr_from_public_key addr_to_string addr_is_derived_from_public_key addr_from_string.
